@@ -668,16 +668,30 @@ def c03_12(ctx):
     it = ctx.interp
     fl = it.module("pycoin.satoshi.flags").ns
     ctx.check(fl.get("SEQUENCE_LOCKTIME_TYPE_FLAG") == 1 << 22 and fl.get("SEQUENCE_LOCKTIME_DISABLE_FLAG") == 1 << 31, "csv-constants", "pycoin/satoshi/flags.py:1", "BIP68 flag constants are wrong")
-    m = defs.get("mask")
-    ctx.check(m is not None and norm(df.expand(m, {k: v for k, v in defs.items() if k != "mask"})) in ("SEQUENCE_LOCKTIME_TYPE_FLAG | 65535", "65535 | SEQUENCE_LOCKTIME_TYPE_FLAG"), "csv-mask", ctx.where(f), "the BIP112 mask is not TYPE_FLAG | 0xffff")
-    for nm, raw_n in (("sequence_masked", raw[0]), ("tx_sequence_masked", raw[1])):
-        d = defs.get(nm)
-        ctx.check(d is not None and norm(d) in ("%s & mask" % raw_n, "mask & %s" % raw_n), "csv-masked-def:%s" % nm, ctx.where(f), "%s is not `%s & mask`" % (nm, raw_n))
-    w = GuardWalker(ru.opaque)
-    ex = w.run(f.node.body)
-    last = [e for e in ex if e.kind == "raise" and "too small" in norm(e.value)]
-    ok = len(last) == 1 and "sequence_masked > tx_sequence_masked" in gi.f_opaques(last[0].cond)
-    ctx.check(ok, "csv-final-comparison", ctx.where(f), "the final BIP112 comparison is not masked(script value) > masked(nSequence)")
+    # BIP112 compares the two values after masking BOTH with TYPE_FLAG | 0xffff: in the conditions of every exit, over the
+    # function's inputs (locals substituted, constants folded), each parameter occurs only as `MASK & parameter`
+    import re as _re
+    MASK = (1 << 22) | 0xFFFF
+    ws = sym.walk(ctx, f, int_names=lambda t: True)
+    atoms = sorted(sym.all_atoms(ws))
+    if not atoms:
+        raise Undecided("_check_sequence_verify: no test found")
+    for prm in raw:
+        masked = _re.compile(r"(?:\b%d & %s\b|\b%s & %d\b)" % (MASK, _re.escape(prm), _re.escape(prm), MASK))
+        other = _re.compile(r"(?:\b(\d+) & %s\b|\b%s & (\d+)\b)" % (_re.escape(prm), _re.escape(prm)))
+        n_masked = 0
+        for a_ in atoms:
+            n_masked += len(masked.findall(a_))
+            rest = masked.sub("M", a_)
+            wrong = [x for tup in other.findall(rest) for x in tup if x]
+            if wrong:
+                ctx.bad("csv-mask:%s" % prm, ctx.where(f), "_check_sequence_verify masks %s with %s in `%s`; BIP112 masks with SEQUENCE_LOCKTIME_TYPE_FLAG | 0xffff = %d" % (prm, wrong[0], a_[:80], MASK))
+            elif _re.search(r"\b%s\b" % _re.escape(prm), rest):
+                ctx.bad("csv-mask:%s" % prm, ctx.where(f), "_check_sequence_verify uses %s unmasked in `%s`: the unused upper bits of nSequence / of the operand change the verdict" % (prm, a_[:80]))
+        ctx.check(n_masked > 0, "csv-masked:%s" % prm, ctx.where(f), "_check_sequence_verify never looks at %s & (TYPE_FLAG | 0xffff)" % prm, sample={"parameter": prm, "masked_occurrences": n_masked})
+    order = [a_ for a_ in atoms if all(p_ in a_ for p_ in raw) and " < " in a_ and " == " not in a_]
+    too_small = [e for e in ws.exits if e.kind == "raise" and any(sym.entails(e.cond, ("not", ("op", o))) for o in order)]
+    ctx.check(bool(order) and bool(too_small), "csv-final-comparison", ctx.where(f), "the final BIP112 comparison masked(script value) > masked(nSequence) => failure was not found (ordering atoms: %s)" % order[:1], sample={"ordering_test": order[:1]})
     g = ctx.func(MISCOPS, "do_OP_CHECKSEQUENCEVERIFY")
     t = norm(g.node)
     ok = "if sequence & SEQUENCE_LOCKTIME_DISABLE_FLAG:" in t and "if vm.tx_context.version < 2:" in t and "if vm.tx_context.sequence & SEQUENCE_LOCKTIME_DISABLE_FLAG:" in t and "_check_sequence_verify(sequence, vm.tx_context.sequence)" in t and "if sequence < 0:" in t
